@@ -89,6 +89,26 @@ def _pair_check(desc):
     return [('%s[%s]' % (t, n), sorted(reg[n]), v)], True, 'mismatch'
 
 
+# ---- standard names stay exported ------------------------------------------------------
+
+def _names_gen():
+    for t, n in json.load(open(os.path.join(ROOT, 'registry', 'exported_confirmed_names.json')))['names']:
+        yield [t, n]
+
+
+_EXPORTED = None
+
+
+def _name_check(desc):
+    global _EXPORTED
+    if _EXPORTED is None:
+        _EXPORTED = {(t, n) for t, n, v in exported_pairs()}
+    t, n = desc
+    if (t, n) in _EXPORTED:
+        return [], True, 'ok'
+    return [('%s[%s]' % (t, n), 'still exported (a registry-defined name the library used to translate)', 'missing')], True, 'missing'
+
+
 # ---- derived maps ---------------------------------------------------------------------
 
 def _derived_gen():
@@ -175,6 +195,9 @@ def _derived_check(which):
 
 def spaces(tier, seed):
     sp = [
+        ListSpace('standard-names-still-exported', _names_gen, _name_check,
+                  rule='every registry-confirmed (table, name) of the vendored snapshot registry/exported_confirmed_names.json is still exported by that table: a standard name that is renamed, '
+                       'misspelt or dropped no longer selects its standard code'),
         ListSpace('exported-pairs-vs-registry', _pairs_gen, _pair_check,
                   rule='every (table, name, value) exported by elf/enums.py, dwarf/enums.py, elf/constants.py, dwarf/constants.py and DW_OP_name2opcode; '
                        'non-trivial = the name is defined by at least one vendored registry (others are counted as unconfirmed)'),
